@@ -323,6 +323,8 @@ class _Expr(SymEval):
         if isinstance(f, ast.Attribute) and isinstance(root, ast.Name) and root.id not in self.env and root.id not in self.np_names:
             mod = getattr(self.owner, "module", None) or (self.owner.cls.module if self.owner.cls is not None else None)
             r = self.owner.prog.resolve_expr(None, mod, f) if mod is not None else None
+            if r is not None and r[0] == "external" and r[1] in getattr(self.owner, "ext_stubs", {}):
+                return self.owner.ext_stubs[r[1]]([self.eval(a) for a in n.args], {k.arg: self.eval(k.value) for k in n.keywords if k.arg is not None})
             if r is not None and r[0] == "external" and r[1] in _PURE_EXTERNALS:
                 args = [self.eval(a) for a in n.args]
                 if not all(isinstance(a, str) for a in args):
@@ -746,7 +748,17 @@ class AccessorEval:
             self.ticks += 1
             if self.ticks > self.limit * 50:
                 raise NotSymbolic("step limit")
-            self._stmt(st, local)
+            try:
+                self._stmt(st, local)
+            except (IndexError, KeyError) as exc:
+                # an index / key outside a container of the evaluated program: the program text raises here
+                raise Raised(type(exc).__name__) from exc
+            except ValueError as exc:
+                # numpy refused an operation of the program on concrete arrays (shapes that do not broadcast, ...)
+                raise Raised("ValueError") from exc
+            except (TypeError, AttributeError, ZeroDivisionError, OverflowError) as exc:
+                # more likely a limit of this evaluator than of the program: undecided, never a verdict
+                raise NotSymbolic(f"{type(exc).__name__} while evaluating line {getattr(st, 'lineno', '?')}: {str(exc)[:80]}") from exc
 
     def _eval(self, e, local):
         ev = _Expr(local, self)
